@@ -388,8 +388,9 @@ def extern_inputs(C):
         'time.Unix': [(s, n) for s in (0, 1, 1700000000, -1, 2**31) for n in (0, 1, 999999999)],
         '(time.Time).Unix': [(t,) for t in (0, 1, 999999999, 10**9, 1700000000 * 10**9 + 5, -1, -10**9, -10**9 - 1)],
         'path/filepath.Join': [([b, u],) for b in C.bases for u in C.names],
-        'argon2.IDKey': [(p, s, t, m, th, l) for p in ('', 'pw') for s in ('saltsalt',) for t in (1, 2) for m in (8,) for th in (1, 2) for l in (1, 16, 32)],
-        'scrypt.Key': [(p, 'salt', N, r, pp, 32) for p in ('', 'pw') for N in (0, 1, 2, 3, 16, 1024) for r in (0, 1, 8) for pp in (0, 1)],
+        # boundary values on purpose: what the preconditions do not exclude must not panic
+        'argon2.IDKey': [(p, s, t, m, th, l) for p in ('', 'pw') for s in ('saltsalt', '') for t in (0, 1, 2) for m in (0, 8) for th in (0, 1, 2) for l in (0, 1, 16, 32)],
+        'scrypt.Key': [(p, s, N, r, pp, l) for p in ('', 'pw') for s in ('salt', '') for N in (0, 1, 2, 3, 16, 1024) for r in (0, 1, 8) for pp in (0, 1) for l in (0, 32)],
     }
 
 def strip_quant(body):
